@@ -86,22 +86,25 @@ Theorem ipq_quadrature_periodic_nonuniform_ok :
   end.
 Proof. vm_compute. repeat split. Qed.
 
-(** defect 9.7: uniform-cubic CLAMPED space with 1 or 2 cells: the three hard-coded edge values overlap.
-    One cell on [0,1]: integrals 1/24, 23/24, 23/24, 1/24 sum to 2, the domain has length 1;
-    two cells on [0,2]: 1/24, 1/2, 23/24, 1/2, 1/24 sum to 49/24, the domain has length 2. *)
-Theorem ipq_integrals_cubic_clamped_small_refuted :
+(** uniform-cubic CLAMPED space with 1 or 2 cells (defect 9.7 of the pinned tree, repaired by 974ae9f: the part of each
+    spline outside the domain is SUBTRACTED at each end, so that a spline cut by both boundaries loses both parts).
+    One cell on [0,1]: integrals 1/24, 11/24, 11/24, 1/24 (sum 1); two cells on [0,2]: 1/24, 1/2, 11/12, 1/2, 1/24 (sum 2);
+    three cells: 1/24, 1/2, 23/24, 23/24, 1/2, 1/24 (sum 3).  The general statement is
+    [CubicQuadTheory.ip_integrals_cubic_clamped_sum]. *)
+Theorem ipq_integrals_cubic_clamped_small_ok :
   match ip_integrals Qc spq_ops (ipq_z [0; 1; 1; 1]%Z) 3 false true with
-  | SpOk ints => map spq_show ints = [(1%Z, 24%positive); (23%Z, 24%positive); (23%Z, 24%positive); (1%Z, 24%positive)]
-              /\ spq_show (ipq_total ints) = (2%Z, 1%positive)
+  | SpOk ints => map spq_show ints = [(1%Z, 24%positive); (11%Z, 24%positive); (11%Z, 24%positive); (1%Z, 24%positive)]
+              /\ spq_show (ipq_total ints) = (1%Z, 1%positive)
   | _ => False
   end /\
   match ip_integrals Qc spq_ops (ipq_z [0; 2; 1; 2]%Z) 3 false true with
-  | SpOk ints => spq_show (ipq_total ints) = (49%Z, 24%positive)
+  | SpOk ints => map spq_show ints = [(1%Z, 24%positive); (1%Z, 2%positive); (11%Z, 12%positive); (1%Z, 2%positive); (1%Z, 24%positive)]
+              /\ spq_show (ipq_total ints) = (2%Z, 1%positive)
   | _ => False
   end /\
-  (* three cells and more are right: 1/24, 1/2, 23/24, 23/24, 1/2, 1/24 sum to 3 *)
   match ip_integrals Qc spq_ops (ipq_z [0; 3; 1; 3]%Z) 3 false true with
-  | SpOk ints => spq_show (ipq_total ints) = (3%Z, 1%positive)
+  | SpOk ints => map spq_show ints = [(1%Z, 24%positive); (1%Z, 2%positive); (23%Z, 24%positive); (23%Z, 24%positive); (1%Z, 2%positive); (1%Z, 24%positive)]
+              /\ spq_show (ipq_total ints) = (3%Z, 1%positive)
   | _ => False
   end.
 Proof. vm_compute. repeat split. Qed.
